@@ -151,8 +151,13 @@ pub fn tokens_to_line(tokens: &Tokens) -> (r: String) { unimplemented!() }
 #[verifier::external_body]
 pub fn vx_reset_child_signals() { unimplemented!() }
 // libc::signal(SIGPIPE, SIG_IGN / SIG_DFL) around the here-string write: signal disposition, no descriptor effect
+// ghost: the SIGPIPE disposition of the shell (it survives fork and exec): a stage must start with the default action (C02: a writer whose
+// reader exits early ends by SIGPIPE), and the shell must have the default action back once the here-string is written
+pub ghost struct SigLog { pub ignored: bool }
 #[verifier::external_body]
-pub fn vx_sigpipe(ignore: bool) { unimplemented!() }
+pub proof fn new_siglog() -> (tracked r: SigLog) ensures !r.ignored { unimplemented!() }
+#[verifier::external_body]
+pub fn vx_sigpipe(ignore: bool, Tracked(sg): Tracked<&mut SigLog>) ensures final(sg).ignored == ignore { unimplemented!() }
 #[verifier::external_body]
 pub fn vx_push_nl(s: &mut String) { s.push('\n') }
 #[verifier::external_body]
@@ -197,6 +202,10 @@ pub open spec fn base_err(i: int, n: int, capture: bool, cap_err: int) -> Obj {
 }
 // ghost description of the pipeline being wired: pipe object ids, capture pipe ids, here-string pipe id
 pub ghost struct Wiring { pub pobj: Seq<int>, pub cap_out: int, pub cap_err: int, pub hs: int }
+// C02: a stage is forked while the shell has the default SIGPIPE action (an ignored disposition would be inherited through exec)
+pub proof fn chk_sigpipe_default(sg: SigLog)
+    requires !sg.ignored,   //@L C02.rsp.a_stage_starts_with_the_default_sigpipe_action
+{ }
 // C07: the process group of stage i at exec: stage 0 leads its own group, later stages join the group named by *pgid
 pub proof fn chk_pgrp(k: Kernel, i: int, pgid_at_entry: int)
     requires k.pgrp == (if i == 0 { k.self_pid } else { pgid_at_entry }),   //@L C07.exec.stage_runs_in_the_group_of_the_first_stage
@@ -484,8 +493,8 @@ C = 'src/core.rs'
 
 RSP_RW = [
     Rw(r'unsafe \{[^{}]*?libc::signal\([^{}]*?\}', 'vx_reset_child_signals();', regex=True, rule='R8', why='libc::signal(SIGTSTP/SIGQUIT, SIG_DFL) in the child: shim, no descriptor effect'),
-    Rw('libc::signal(libc::SIGPIPE, libc::SIG_IGN);', 'vx_sigpipe(true);', required=False, rule='R8', why='signal disposition while the here-string is written: shim, no descriptor effect'),
-    Rw('libc::signal(libc::SIGPIPE, libc::SIG_DFL);', 'vx_sigpipe(false);', required=False, rule='R8'),
+    Rw('libc::signal(libc::SIGPIPE, libc::SIG_IGN);', 'vx_sigpipe(true, Tracked(&mut sg));', required=False, rule='R8', why='signal disposition while the here-string is written: shim, no descriptor effect'),
+    Rw('libc::signal(libc::SIGPIPE, libc::SIG_DFL);', 'vx_sigpipe(false, Tracked(&mut sg));', required=False, rule='R8'),
     Rw("text.push('\\n');", 'vx_push_nl(&mut text);', required=False, rule='R12'),
     Rw('text.as_bytes()', 'vx_as_bytes(&text)', required=False, rule='R12'),
     Rw(r'Err\(ref e\) if e\.kind\(\) == std::io::ErrorKind::BrokenPipe => \{\}', '', regex=True, required=False, rule='R10', why='EPIPE arm of the here-string write: same (empty) effect as the general arm for the descriptor model'),
@@ -575,7 +584,9 @@ run_single_program = Fn(C, 'run_single_program', ret='r', pre_rewrites=RSP_RW, f
         ]),
     },
     hints={
-        'before-call:fork': 'RAW: let ghost f0 = old(k).fds; let ghost f1 = k.fds;',
+        'fn-entry': 'RAW: let tracked mut sg = new_siglog();',
+        'before-call:fork': 'RAW: let ghost f0 = old(k).fds; let ghost f1 = k.fds; proof { chk_sigpipe_default(sg); }',
+        'before-text:// (in parent) close unused pipe ends': 'LABEL:C02+C08.rsp.the_shell_has_the_default_sigpipe_action_back_after_the_here_string: assert(!sg.ignored);',
         'before-call:has_redirect_from': 'lemma_lits();',
         'hdr:&cmd.redirects_to|body-entry': 'lemma_lits();',
         'hdr:idx_cmd + 1..pipes_count|exit': 'lemma_close_range(f1, pipes@, idx_cmd + 1, pipes@.len() as int); '
